@@ -129,6 +129,37 @@ var sysOnly = map[string]bool{
 	vmcommon.BuiltInFunctionESDTPause: true, vmcommon.BuiltInFunctionESDTUnPause: true,
 }
 
+// onlySystemAccountHolding reports whether got and want differ in nothing but entries of the
+// system account 0xff..ff (tokens somebody sent to that address).
+func onlySystemAccountHolding(got, want map[string]*big.Int) bool {
+	diff := false
+	keys := map[string]bool{}
+	for k := range got {
+		keys[k] = true
+	}
+	for k := range want {
+		keys[k] = true
+	}
+	for k := range keys {
+		g, w := got[k], want[k]
+		if g == nil {
+			g = new(big.Int)
+		}
+		if w == nil {
+			w = new(big.Int)
+		}
+		if g.Cmp(w) == 0 {
+			continue
+		}
+		a, _ := spec.SplitBalKey(k)
+		if !spec.IsSystemAccount(a) {
+			return false
+		}
+		diff = true
+	}
+	return diff
+}
+
 func isSysCaller(leg *world.Leg) bool {
 	return leg.Input != nil && bytes.Equal(leg.Input.CallerAddr, vmcommon.ESDTSCAddress)
 }
@@ -157,7 +188,12 @@ func (o *supplyOracle) Leg(c *explore.Ctx, leg *world.Leg) {
 	if known {
 		got := spec.Delta(spec.Balances(leg.Pre), spec.Balances(leg.Post))
 		if !spec.EqualDelta(got, want) {
-			c.Report(p, "delta", fmt.Sprintf("%s:%s", leg.Func, sideOf(leg)),
+			sig := fmt.Sprintf("%s:%s", leg.Func, sideOf(leg))
+			if onlySystemAccountHolding(got, want) {
+				// the difference concerns nothing but tokens the system account 0xff..ff itself holds
+				sig += ":system-account-own-holding"
+			}
+			c.Report(p, "delta", sig,
 				fmt.Sprintf("balance changes %s, expected %s", spec.FmtDelta(got, uni.Name), spec.FmtDelta(want, uni.Name)))
 		}
 	}
@@ -453,7 +489,11 @@ func (o *freezeOracle) Leg(c *explore.Ctx, leg *world.Leg) {
 	}
 	d := spec.Delta(spec.Balances(leg.Pre), spec.Balances(leg.Post))
 	if sys && (leg.Func == vmcommon.BuiltInFunctionESDTFreeze || leg.Func == vmcommon.BuiltInFunctionESDTPause) && len(d) != 0 {
-		c.Report(p, "toggle", leg.Func+":balance-changed", fmt.Sprintf("%s changed balances: %s", leg.Func, spec.FmtDelta(d, uni.Name)))
+		sig := leg.Func + ":balance-changed"
+		if onlySystemAccountHolding(d, map[string]*big.Int{}) {
+			sig += ":system-account-own-holding"
+		}
+		c.Report(p, "toggle", sig, fmt.Sprintf("%s changed balances: %s", leg.Func, spec.FmtDelta(d, uni.Name)))
 	}
 	for k, v := range d {
 		addr, suffix := spec.SplitBalKey(k)
